@@ -463,12 +463,94 @@ def standin_unit(chunk: int, n_chunks: int, tier: str):
     return harness
 
 
+# --------------------------------------------------------------------------- the file layer
+SHAPES = ["missing", "none", "scalar", "table"]
+
+
+def get_value_harness(nparts: int):
+    """`Config.get_value("a.b...")` - the lookup every file-configurable option goes through:
+    the value is taken only from the *exact* dotted path through nested tables; a missing key, a
+    None, or a scalar where a table is expected yields the caller's default (so that the option
+    falls back to its built-in default instead of inheriting an unrelated value)."""
+    def harness(I: Interp) -> None:
+        from gallia import config as CF
+        parts = [f"k{i}" for i in range(nparts)]
+        shapes = [SHAPES[I.choose([z3.BoolVal(True)] * 4)] for _ in parts]
+        default = VObj(Stub, {}, tag="default")
+        leaf = VObj(Stub, {}, tag="leaf-value")
+
+        def build(i: int) -> VDict:
+            sh = shapes[i]
+            others = [(VStr("other"), VInt(1))]
+            if sh == "missing":
+                return VDict(list(others))
+            if sh == "none":
+                return VDict(others + [(VStr(parts[i]), NONE)])
+            if sh == "scalar" or i == nparts - 1:
+                val: V = leaf if i == nparts - 1 and sh != "scalar" else VObj(
+                    Stub, {}, tag=f"scalar-at-{i}")
+                if i == nparts - 1:
+                    val = leaf
+                return VDict(others + [(VStr(parts[i]), val)])
+            return VDict(others + [(VStr(parts[i]), build(i + 1))])
+        # the dict found along the path; levels after the first non-table are not built
+        root = build(0)
+        try:
+            # Config is a dict subclass: `self` is the root table itself
+            r = I.call_py(CF.Config.get_value, [root, VStr(".".join(parts)), default], {},
+                          owner=CF.Config)
+        except PyExc as e:
+            I.fail("G-get_value-does-not-raise", e.exc.cls.__name__)
+            return
+        # reference: walk the shapes
+        full = all(s_ == "table" for s_ in shapes[:-1]) and shapes[-1] in ("scalar", "table")
+        I.prove("G-value-only-from-the-exact-dotted-path-otherwise-the-default",
+                z3.BoolVal(r is (leaf if full else default)),
+                f"shapes along the path: {shapes}")
+    return harness
+
+
+def native_get_value() -> tuple[bool, str]:
+    import itertools
+    from gallia import config as CF
+    sentinel = object()
+    for n in (1, 2, 3, 4):
+        for shapes in itertools.product(SHAPES, repeat=n):
+            d: Any = "leaf"
+            ok = True
+            for i in range(n - 1, -1, -1):
+                sh = shapes[i]
+                if i == n - 1:
+                    d = {"other": 1} if sh == "missing" else {"other": 1, f"k{i}":
+                                                              None if sh == "none" else "leaf"}
+                    ok = sh in ("scalar", "table")
+                else:
+                    if sh == "table":
+                        d = {"other": 1, f"k{i}": d}
+                    else:
+                        d = {"other": 1} if sh == "missing" else {
+                            "other": 1, f"k{i}": None if sh == "none" else f"scalar-at-{i}"}
+                        ok = False
+            got = CF.Config(d).get_value(".".join(f"k{i}" for i in range(n)), sentinel)
+            want = "leaf" if ok else sentinel
+            if got is not want and got != want:
+                return True, (f"Config({d}).get_value('{'.'.join(f'k{i}' for i in range(n))}', "
+                              f"default) == {got!r}; the path "
+                              f"{'exists' if ok else 'does not exist'}")
+    return False, "get_value follows exactly the dotted path on all shapes up to 4 levels"
+
+
+
 def build_units(tier: str) -> list[Unit]:
     units: list[Unit] = []
     for path, cmd in tree():
         p = "/".join(path)
         units.append(Unit(f"metadata/{p}", metadata_harness(path, cmd)))
         units.append(Unit(f"layer1/{p}", layer1_harness(path, cmd), max_paths=20000))
+    for k in (1, 2, 3, 4):
+        units.append(Unit(f"file-layer/Config.get_value/parts={k}", get_value_harness(k)))
+    from . import c15
+    units.append(Unit("rerun/BaseCommand.__init__", c15.init_harness, setup=_rerun_setup))
     n = 16
     for k in range(n):
         units.append(Unit(f"standin/precedence/chunk-{k}", standin_unit(k, n, tier),
@@ -476,9 +558,18 @@ def build_units(tier: str) -> list[Unit]:
     return units
 
 
+def _rerun_setup(ex: Explorer) -> None:
+    ex.obligation_filter = lambda name: name.startswith("N-stored-configuration")  # type: ignore[attr-defined]
+
+
 def native_replay(unit: str, obligation: str, model: dict) -> tuple[bool, str]:
     import logging
     logging.disable(logging.CRITICAL)
+    if unit.startswith("file-layer/"):
+        return native_get_value()
+    if unit.startswith("rerun/"):
+        from . import c15
+        return c15.native_stored_config()
     if unit.startswith("metadata/") and obligation.startswith("M-option-"):
         name = obligation[len("M-option-"):].split("-carries-")[0]
         path = tuple(unit.split("/")[1:])
